@@ -132,7 +132,7 @@ def assoc_case(ctx, d, case):
     if case.get('resplit') and len(sizes) >= 2:
         # move one trajectory across the first boundary that allows it
         for j in range(len(sizes) - 1):
-            if sizes_b[j] >= 1:
+            if sizes_b[j] >= 2:          # (every re-split input keeps at least one trajectory: an empty store is not an identified one)
                 sizes_b[j] -= 1
                 sizes_b[j + 1] += 1
                 break
